@@ -44,6 +44,7 @@ include!("suite_codec.rs");
 include!("suite_init.rs");
 include!("suite_beacon.rs");
 include!("suite_node.rs");
+include!("suite_config.rs");
 
 pub struct State {
     pure_: PureState,
@@ -87,6 +88,9 @@ impl State {
             return r;
         }
         if let Some(r) = beacon_step(&toks) {
+            return r;
+        }
+        if let Some(r) = config_step(&toks) {
             return r;
         }
         if toks[0].starts_with('n') {
